@@ -1,6 +1,7 @@
 CONSTANTS Scope = "small" Mutant = "none" DepEnumOffered = FALSE
 SPECIFICATION Spec
 INVARIANT Inv_ExactlyOneCall
+INVARIANT Inv_FlatFirstOccurrence
 INVARIANT Inv_PathArity
 INVARIANT Inv_Payload
 INVARIANT Inv_Reply
